@@ -1,5 +1,5 @@
 (* C18 — proofs about the specification model and the transcribed algorithms of C18_Model.v *)
-From Coq Require Import List ZArith QArith Qreduction Qabs Bool Lia Lqa Permutation Sorted Setoid Morphisms.
+From Coq Require Import List ZArith QArith Qreduction Qabs Qround Bool Lia Lqa Permutation Sorted Setoid Morphisms Arith.
 Require Import C18_Model.
 Import ListNotations.
 Local Open Scope Q_scope.
@@ -754,3 +754,297 @@ Qed.
 (* extracting the maximum: max and min of two values carry the same pair of values *)
 Theorem max_min_pair : forall x y, (qmax x y == x /\ qmin x y == y) \/ (qmax x y == y /\ qmin x y == x).
 Proof. intros x y. unfold qmax, qmin. destruct (Qle_bool x y); [right | left]; split; reflexivity. Qed.
+(* ================================================================ evaluation by bisection = PL interpolation *)
+Lemma function_value_line_val : forall p q x, ~ fst q - fst p == 0 -> function_value p q x == line_val p q x.
+Proof.
+  intros p q x H. unfold function_value, line_val, radd, rsub, rmul, rdiv. repeat rewrite Qred_correct. field. exact H.
+Qed.
+
+Lemma xsorted_nth_lt : forall l i j, xsorted l -> (i < j)%nat -> (j < length l)%nat -> fst (nthp l i) < fst (nthp l j).
+Proof.
+  unfold xsorted, nthp. induction l as [|p l IH]; intros i j Hs Hij Hj; [simpl in Hj; lia|].
+  simpl in Hs. inversion Hs as [|? ? Hs' Hall]; subst.
+  destruct j as [|j]; [lia|]. destruct i as [|i].
+  - simpl. rewrite Forall_forall in Hall. apply Hall. apply in_map. apply nth_In. simpl in Hj; lia.
+  - simpl. apply IH; auto; simpl in Hj; lia.
+Qed.
+
+Global Instance interp_from_comp : forall p l, Proper (Qeq ==> Qeq) (interp_from p l).
+Proof.
+  intros p l; revert p; induction l as [|q l IH]; intros p t t' Ht; simpl; [reflexivity|].
+  rewrite Ht. destruct (Qle_bool t' (fst q)); [unfold line_val; rewrite Ht; reflexivity | apply IH; auto].
+Qed.
+Global Instance interp_comp : forall l, Proper (Qeq ==> Qeq) (interp l).
+Proof.
+  intros [|p l] t t' Ht; simpl; [reflexivity|]. rewrite Ht. destruct (Qle_bool t' (fst p)); [reflexivity | apply interp_from_comp; auto].
+Qed.
+
+(* on the i-th segment the PL function is the line through the two breakpoints *)
+Lemma interp_from_segment : forall l p i x, xsorted (p :: l) -> (i + 1 < length (p :: l))%nat ->
+  fst (nthp (p :: l) i) < x -> x <= fst (nthp (p :: l) (i + 1)) ->
+  interp_from p l x == line_val (nthp (p :: l) i) (nthp (p :: l) (i + 1)) x.
+Proof.
+  induction l as [|q l IH]; intros p i x Hs Hi H1 H2; [simpl in Hi; lia|].
+  simpl. destruct i as [|i].
+  - unfold nthp in *; simpl in *. apply Qle_bool_iff in H2. rewrite H2. reflexivity.
+  - assert (Hq : fst q < x).
+    { eapply Qle_lt_trans; [|exact H1]. destruct i as [|i]; [unfold nthp; simpl; apply Qle_refl|].
+      apply Qlt_le_weak. change (nthp (p :: q :: l) (S (S i))) with (nthp (q :: l) (S i)).
+      change q with (nthp (q :: l) 0) at 1. apply xsorted_nth_lt; [|lia|simpl in *; lia].
+      unfold xsorted in *; simpl in *; inversion Hs; auto. }
+    assert (E : Qle_bool x (fst q) = false).
+    { destruct (Qle_bool x (fst q)) eqn:E; auto. apply Qle_bool_iff in E. lra. }
+    rewrite E. change (nthp (p :: q :: l) (S i)) with (nthp (q :: l) i).
+    change (nthp (p :: q :: l) (S i + 1)) with (nthp (q :: l) (i + 1)).
+    apply IH; auto.
+    + unfold xsorted in *; simpl in *; inversion Hs; auto.
+    + simpl in *; lia.
+Qed.
+Lemma interp_segment : forall l i x, xsorted l -> (i + 1 < length l)%nat ->
+  fst (nthp l i) < x -> x <= fst (nthp l (i + 1)) -> interp l x == line_val (nthp l i) (nthp l (i + 1)) x.
+Proof.
+  intros [|p l] i x Hs Hi H1 H2; [simpl in Hi; lia|]. simpl.
+  assert (Hp : fst p < x).
+  { eapply Qle_lt_trans; [|exact H1]. destruct i as [|i]; [unfold nthp; simpl; apply Qle_refl|].
+    apply Qlt_le_weak. change p with (nthp (p :: l) 0) at 1. apply xsorted_nth_lt; auto; lia. }
+  assert (E : Qle_bool x (fst p) = false).
+  { destruct (Qle_bool x (fst p)) eqn:E; auto. apply Qle_bool_iff in E. lra. }
+  rewrite E. apply interp_from_segment; auto.
+Qed.
+
+Lemma div2_between : forall a b, (a + 1 < b)%nat -> (a < Nat.div2 (b + a) < b)%nat.
+Proof.
+  intros a b H. pose proof (Nat.div2_odd (b + a)) as E. destruct (Nat.odd (b + a)); simpl in E; lia.
+Qed.
+
+Lemma bisect_correct : forall fuel l cb ce x, xsorted l -> (cb < ce)%nat -> (ce < length l)%nat -> (ce - cb <= fuel)%nat ->
+  fst (nthp l cb) < x -> x < fst (nthp l ce) ->
+  exists v, bisect (S fuel) l cb ce x = Some v /\ v == interp l x.
+Proof.
+  induction fuel as [|fuel IH]; intros l cb ce x Hs Hlt Hce Hf H1 H2.
+  - assert (ce = cb + 1)%nat by lia. subst ce. simpl. rewrite Nat.eqb_refl.
+    eexists; split; [reflexivity|]. rewrite function_value_line_val.
+    + symmetry; apply interp_segment; auto. lra.
+    + pose proof (xsorted_nth_lt l cb (cb + 1) Hs ltac:(lia) Hce). lra.
+  - cbn [bisect]. destruct (Nat.eqb (cb + 1) ce) eqn:E.
+    + apply Nat.eqb_eq in E. subst ce. eexists; split; [reflexivity|]. rewrite function_value_line_val.
+      * symmetry; apply interp_segment; auto. lra.
+      * pose proof (xsorted_nth_lt l cb (cb + 1) Hs ltac:(lia) Hce). lra.
+    + apply Nat.eqb_neq in E. assert (Hd := div2_between cb ce ltac:(lia)).
+      set (nc := Nat.div2 (ce + cb)) in *.
+      destruct (Qle_bool (fst (nthp l nc)) x) eqn:E1.
+      * apply Qle_bool_iff in E1. destruct (Qeq_bool (fst (nthp l nc)) x) eqn:E2.
+        -- apply Qeq_bool_iff in E2. eexists; split; [reflexivity|]. rewrite <- E2.
+           symmetry. apply interp_at_breakpoint; auto. apply nth_In. lia.
+        -- assert (Hne : ~ fst (nthp l nc) == x) by (intro Hq; apply Qeq_bool_iff in Hq; congruence).
+           apply IH; auto; try lia. destruct (Qlt_le_dec (fst (nthp l nc)) x); auto. exfalso; apply Hne; lra.
+      * apply Qle_bool_false in E1. apply IH; auto; lia.
+Qed.
+
+(* compute_value_at_a_given_point on one level whose two outer points on each side have ordinate 0 (the sentinels and the
+   first/last finite breakpoint) returns the PL interpolation of the stored breakpoints, for every x *)
+Theorem value_at_is_interp : forall l x, xsorted l -> (3 <= length l)%nat ->
+  snd (nthp l 0) == 0 -> snd (nthp l 1) == 0 -> snd (nthp l (length l - 2)) == 0 -> snd (nthp l (length l - 1)) == 0 ->
+  fst (nthp l 0) < x -> x < fst (nthp l (length l - 1)) ->
+  exists v, value_at [l] 0 x = Some v /\ v == interp l x.
+Proof.
+  intros l x Hs Hlen Y0 Y1 Y2 Y3 X0 X1. unfold value_at. simpl length. simpl Nat.leb. cbn [nth].
+  destruct (Qle_bool x (fst (nthp l 1))) eqn:E1.
+  - apply Qle_bool_iff in E1. eexists; split; [reflexivity|].
+    rewrite (interp_segment l 0 x Hs ltac:(simpl; lia) X0 E1). unfold line_val. simpl Nat.add. rewrite Y0, Y1. ring.
+  - apply Qle_bool_false in E1. destruct (Qle_bool (fst (nthp l (length l - 2))) x) eqn:E2.
+    + apply Qle_bool_iff in E2. eexists; split; [reflexivity|].
+      destruct (Qlt_le_dec (fst (nthp l (length l - 2))) x) as [Hlt|Hle].
+      * rewrite (interp_segment l (length l - 2) x Hs ltac:(lia) Hlt).
+        -- unfold line_val. replace (length l - 2 + 1)%nat with (length l - 1)%nat by lia. rewrite Y2, Y3. ring.
+        -- replace (length l - 2 + 1)%nat with (length l - 1)%nat by lia. lra.
+      * assert (Ex : x == fst (nthp l (length l - 2))) by lra. rewrite Ex.
+        rewrite interp_at_breakpoint; auto; [rewrite Y2; reflexivity | apply nth_In; lia].
+    + apply Qle_bool_false in E2.
+      assert (Hlt : (1 < length l - 2)%nat).
+      { destruct (Nat.eq_dec (length l - 2) 1) as [e|]; [rewrite e in E2; lra|].
+        destruct (Nat.eq_dec (length l - 2) 0) as [e|]; [|lia]. exfalso.
+        assert (length l = 2 \/ length l = 1 \/ length l = 0)%nat by lia. lia. }
+      apply bisect_correct; auto; lia.
+Qed.
+(* ================================================================ the repaired grid evaluation at a grid point *)
+Lemma Qlt_bool_true : forall a b, a < b -> Qlt_bool a b = true.
+Proof. intros a b H; unfold Qlt_bool. destruct (Qle_bool b a) eqn:E; auto. apply Qle_bool_iff in E. lra. Qed.
+Lemma Qlt_bool_false : forall a b, b <= a -> Qlt_bool a b = false.
+Proof. intros a b H; unfold Qlt_bool. apply Qle_bool_iff in H. rewrite H. reflexivity. Qed.
+Lemma almost_equal_refl : forall a b, a == b -> almost_equal a b = true.
+Proof.
+  intros a b H; unfold almost_equal. apply Qlt_bool_true. rewrite qabs_Qabs.
+  setoid_replace (a - b) with 0 by lra. reflexivity.
+Qed.
+
+Theorem grid_value_at_grid_point : forall vals gmin gmax level (i : nat),
+  gmin < gmax -> (2 <= length vals)%nat -> (i <= length vals - 1)%nat ->
+  grid_value true vals gmin gmax level (gmin + inject_Z (Z.of_nat i) * ((gmax - gmin) / inject_Z (Z.of_nat (length vals - 1))))
+  = Some (gval0 vals i level).
+Proof.
+  intros vals gmin gmax level i Hg Hlen Hi. unfold grid_value.
+  set (n := inject_Z (Z.of_nat (length vals - 1))).
+  assert (Hn : 1 <= n).
+  { unfold n. change 1 with (inject_Z 1). rewrite <- Zle_Qle. lia. }
+  assert (Hi' : inject_Z (Z.of_nat i) <= n) by (unfold n; rewrite <- Zle_Qle; lia).
+  assert (Hi0 : 0 <= inject_Z (Z.of_nat i)) by (change 0 with (inject_Z 0); rewrite <- Zle_Qle; lia).
+  set (dx := (gmax - gmin) / n). set (x := gmin + inject_Z (Z.of_nat i) * dx).
+  assert (Hdx : 0 < dx) by (unfold dx; apply Qlt_shift_div_l; lra).
+  assert (Hx0 : gmin <= x) by (unfold x; nra).
+  assert (Hx1 : x <= gmax).
+  { unfold x. assert (E : gmax == gmin + n * dx) by (unfold dx; field; lra). rewrite E. nra. }
+  rewrite (Qlt_bool_false x gmin Hx0), (Qlt_bool_false gmax x Hx1). simpl orb. cbv iota.
+  assert (Hpos : grid_index x gmin (rdiv (gmax - gmin) n) = i).
+  { unfold grid_index. rewrite rdiv_eq. fold dx.
+    assert (E : (x - gmin) / dx == inject_Z (Z.of_nat i)) by (unfold x; field; lra).
+    rewrite E. rewrite Qfloor_Z. apply Nat2Z.id. }
+  fold n. rewrite Hpos.
+  rewrite almost_equal_refl; [reflexivity|].
+  rewrite radd_eq, rmul_eq, rdiv_eq. fold dx. unfold x. ring.
+Qed.
+(* ================================================================ abs() is the pointwise absolute value *)
+Lemma Qlt_bool_iff' : forall a b, Qlt_bool a b = true <-> a < b.
+Proof.
+  intros a b; unfold Qlt_bool; split; intro H.
+  - destruct (Qle_bool b a) eqn:E; [discriminate|]. apply Qle_bool_false in E; auto.
+  - destruct (Qle_bool b a) eqn:E; auto. apply Qle_bool_iff in E. lra.
+Qed.
+Lemma qabs_case : forall a, (0 <= a /\ qabs a == a) \/ (a < 0 /\ qabs a == - a).
+Proof.
+  intros a. destruct (Qlt_le_dec a 0); [right | left]; split; auto; [apply qabs_neg; lra | apply qabs_pos; auto].
+Qed.
+(* same sign at both ends: |linear| is the linear interpolation of the absolute values *)
+Lemma convex_nonneg : forall a b s, 0 <= a -> 0 <= b -> 0 <= s -> s <= 1 -> 0 <= a + (b - a) * s.
+Proof.
+  intros a b s Ha Hb H0 H1. assert (0 <= a * (1 - s)) by (apply Qmult_le_0_compat; lra).
+  assert (0 <= b * s) by (apply Qmult_le_0_compat; lra). lra.
+Qed.
+Lemma abs_line_same : forall yp yc s, 0 <= yp * yc -> 0 <= s -> s <= 1 ->
+  qabs yp + (qabs yc - qabs yp) * s == qabs (yp + (yc - yp) * s).
+Proof.
+  intros yp yc s H H0 H1.
+  destruct (qabs_case yp) as [[Sp Ep]|[Sp Ep]]; destruct (qabs_case yc) as [[Sc Ec]|[Sc Ec]]; rewrite Ep, Ec.
+  - rewrite qabs_pos by (apply convex_nonneg; auto). ring.
+  - assert (E : yp == 0) by nra. rewrite E.
+    assert (Hn : 0 + (yc - 0) * s <= 0) by (assert (0 <= (- yc) * s) by (apply Qmult_le_0_compat; lra); lra).
+    rewrite (qabs_neg _ Hn). ring.
+  - assert (E : yc == 0) by nra. rewrite E.
+    assert (Hn : yp + (0 - yp) * s <= 0) by (assert (0 <= (- yp) * (1 - s)) by (apply Qmult_le_0_compat; lra); lra).
+    rewrite (qabs_neg _ Hn). ring.
+  - assert (Hn : yp + (yc - yp) * s <= 0).
+    { pose proof (convex_nonneg (- yp) (- yc) s ltac:(lra) ltac:(lra) H0 H1). lra. }
+    rewrite (qabs_neg _ Hn). ring.
+Qed.
+Lemma find_zero_eq : forall p c, ~ fst c - fst p == 0 -> ~ snd c - snd p == 0 ->
+  find_zero p c == fst p - snd p * (fst c - fst p) / (snd c - snd p).
+Proof.
+  intros p c Hx Hy. unfold find_zero.
+  destruct (Qeq_bool (fst p) (fst c)) eqn:E; [apply Qeq_bool_iff in E; exfalso; apply Hx; lra|].
+  unfold rdiv, rsub, rmul. repeat rewrite Qred_correct. field. split; auto.
+Qed.
+
+Ltac side_cond y w :=
+  match goal with
+  | Esign : _ * _ < 0, h := _ |- _ =>
+    let E0 := fresh "E0" in let Hm := fresh "Hm" in
+    intro E0; unfold h in *; assert (Hm : y * w == 0) by lra;
+    apply Qmult_integral in Hm; destruct Hm as [Hm|Hm]; [rewrite Hm in Esign; lra | lra]
+  end.
+Lemma abs_level_from_correct : forall tl prev t, xsorted (prev :: tl) -> fst prev <= t ->
+  interp_from (fst prev, qabs (snd prev)) (abs_level_from prev tl) t == qabs (interp_from prev tl t).
+Proof.
+  induction tl as [|c tl IH]; intros prev t Hs Ht; [reflexivity|].
+  assert (Hs' : xsorted (c :: tl)) by (unfold xsorted in *; simpl in *; inversion Hs; auto).
+  assert (Hx : fst prev < fst c).
+  { unfold xsorted in Hs; simpl in Hs. inversion Hs as [|? ? _ Hall]; subst. inversion Hall; auto. }
+  cbn [abs_level_from interp_from].
+  set (h := fst c - fst prev). assert (Hh : 0 < h) by (unfold h; lra).
+  destruct (Qlt_bool (snd prev * snd c) 0) eqn:Esign.
+  - (* sign change: the zero crossing is inserted *)
+    apply Qlt_bool_iff' in Esign.
+    assert (Hy : ~ snd c - snd prev == 0) by (intro E0; assert (snd c == snd prev) by lra; nra).
+    pose proof (find_zero_eq prev c ltac:(fold h; lra) Hy) as Hz. fold h in Hz.
+    set (z := find_zero prev c) in *.
+    assert (Hz1 : fst prev < z /\ z < fst c).
+    { rewrite Hz. assert (0 < - snd prev / (snd c - snd prev) /\ - snd prev / (snd c - snd prev) < 1).
+      { destruct (Qlt_le_dec 0 (snd prev)) as [Sp|Sp].
+        - assert (snd c < 0) by nra. split.
+          + setoid_replace (- snd prev / (snd c - snd prev)) with (snd prev / (snd prev - snd c)) by (field; lra).
+            apply Qlt_shift_div_l; lra.
+          + setoid_replace (- snd prev / (snd c - snd prev)) with (snd prev / (snd prev - snd c)) by (field; lra).
+            apply Qlt_shift_div_r; lra.
+        - assert (snd prev < 0) by nra. assert (0 < snd c) by nra. split.
+          + apply Qlt_shift_div_l; lra.
+          + apply Qlt_shift_div_r; lra. }
+      setoid_replace (fst prev - snd prev * h / (snd c - snd prev)) with (fst prev + h * (- snd prev / (snd c - snd prev))) by (field; lra).
+      unfold h in *. nra. }
+    simpl app. cbn [interp_from]. simpl fst. simpl snd.
+    destruct (Qle_bool t (fst c)) eqn:Etc.
+    + pose proof Etc as Etcb. apply Qle_bool_iff in Etc. destruct (Qle_bool t z) eqn:Etz.
+      * (* left of the zero *)
+        apply Qle_bool_iff in Etz. unfold line_val; simpl fst; simpl snd.
+        assert (Hzz : ~ z - fst prev == 0) by lra.
+        destruct (qabs_case (snd prev)) as [[Sp Ep]|[Sp Ep]]; rewrite Ep.
+        -- assert (Sc : snd c < 0) by nra.
+           assert (Hpos : 0 <= snd prev + (snd c - snd prev) * ((t - fst prev) / h)).
+           { assert (E : snd prev + (snd c - snd prev) * ((t - fst prev) / h) == (snd prev - snd c) * ((z - t) / h)).
+             { rewrite Hz. field. split; lra. }
+             rewrite E. apply Qmult_le_0_compat; [lra|]. apply Qle_shift_div_l; lra. }
+           fold h. rewrite (qabs_pos _ Hpos). rewrite Hz. field. repeat split; try lra. side_cond (snd prev) (fst c - fst prev).
+        -- assert (Sc : 0 < snd c) by nra.
+           assert (Hneg : snd prev + (snd c - snd prev) * ((t - fst prev) / h) <= 0).
+           { assert (E : snd prev + (snd c - snd prev) * ((t - fst prev) / h) == - ((snd c - snd prev) * ((z - t) / h))).
+             { rewrite Hz. field. split; lra. }
+             rewrite E. assert (0 <= (snd c - snd prev) * ((z - t) / h)); [|lra].
+             apply Qmult_le_0_compat; [lra|]. apply Qle_shift_div_l; lra. }
+           fold h. rewrite (qabs_neg _ Hneg). rewrite Hz. field. repeat split; try lra. side_cond (snd prev) (fst c - fst prev).
+      * (* between the zero and the right end *)
+        apply Qle_bool_false in Etz. unfold line_val; simpl fst; simpl snd.
+        assert (Hzz : ~ fst c - z == 0) by lra.
+        destruct (qabs_case (snd c)) as [[Sc Ec]|[Sc Ec]]; rewrite Ec.
+        -- assert (Sp : snd prev < 0) by nra.
+           assert (Hpos : 0 <= snd prev + (snd c - snd prev) * ((t - fst prev) / h)).
+           { assert (E : snd prev + (snd c - snd prev) * ((t - fst prev) / h) == (snd c - snd prev) * ((t - z) / h)).
+             { rewrite Hz. field. split; lra. }
+             rewrite E. apply Qmult_le_0_compat; [lra|]. apply Qle_shift_div_l; lra. }
+           fold h. rewrite (qabs_pos _ Hpos). rewrite Hz. unfold h. field. repeat split; try lra. side_cond (snd c) (fst c - fst prev).
+        -- assert (Sp : 0 < snd prev) by nra.
+           assert (Hneg : snd prev + (snd c - snd prev) * ((t - fst prev) / h) <= 0).
+           { assert (E : snd prev + (snd c - snd prev) * ((t - fst prev) / h) == - ((snd prev - snd c) * ((t - z) / h))).
+             { rewrite Hz. field. split; lra. }
+             rewrite E. assert (0 <= (snd prev - snd c) * ((t - z) / h)); [|lra].
+             apply Qmult_le_0_compat; [lra|]. apply Qle_shift_div_l; lra. }
+           fold h. rewrite (qabs_neg _ Hneg). rewrite Hz. unfold h. field. repeat split; try lra. side_cond (snd c) (fst c - fst prev).
+    + apply Qle_bool_false in Etc.
+      assert (Etz : Qle_bool t z = false).
+      { destruct (Qle_bool t z) eqn:E; auto. apply Qle_bool_iff in E. lra. }
+      rewrite Etz. apply (IH c t Hs'). lra.
+  - (* no sign change *)
+    assert (Hsame : 0 <= snd prev * snd c).
+    { destruct (Qlt_le_dec (snd prev * snd c) 0) as [H|H]; auto. apply Qlt_bool_iff' in H. congruence. }
+    simpl app. cbn [interp_from]. simpl fst.
+    destruct (Qle_bool t (fst c)) eqn:Etc.
+    + apply Qle_bool_iff in Etc. unfold line_val; simpl fst; simpl snd. fold h.
+      apply abs_line_same; auto.
+      * apply Qle_shift_div_l; lra.
+      * apply Qle_shift_div_r; unfold h in *; lra.
+    + apply Qle_bool_false in Etc. apply (IH c t Hs'). lra.
+Qed.
+
+(* abs() of one level whose first point has ordinate 0 is the pointwise absolute value, at every t *)
+Theorem abs_level_pointwise : forall l t, xsorted l ->
+  snd (nthp l 0) == 0 -> fst (nthp l 0) = - INF -> interp (abs_level l) t == qabs (interp l t).
+Proof.
+  intros [|p tl] t Hs Hy Hx; [exfalso; vm_compute in Hx; discriminate Hx|].
+  unfold nthp in Hy, Hx; simpl in Hy, Hx. cbn [abs_level interp]. simpl fst. simpl snd. rewrite Hx.
+  destruct (Qle_bool t (- INF)) eqn:E.
+  - rewrite Hy. reflexivity.
+  - apply Qle_bool_false in E.
+    assert (Ep : Forall2 same_pts ((- INF, 0) :: abs_level_from p tl) ((fst p, qabs (snd p)) :: abs_level_from p tl)).
+    { constructor; [split; simpl; [auto | rewrite Hy; reflexivity]|].
+      clear. induction (abs_level_from p tl); constructor; auto. split; reflexivity. }
+    inversion Ep as [|a b la lb Hab Hrest]; subst.
+    rewrite (interp_from_ext _ _ _ _ t Hab Hrest).
+    apply abs_level_from_correct; auto. rewrite Hx. lra.
+Qed.
